@@ -272,6 +272,15 @@ class Interp:
         elif kind == "arr":
             _, _, iname, target, n, how, conns = op
             t = self.target(target)
+            if how == "mul_keep":
+                # a connected instance is multiplied, and then added in its own right too
+                unit = t()
+                for port, x in conns.items():
+                    unit.connect(port, self.expr(env, x))
+                arr = n * unit
+                self._put(env, iname, arr)
+                self._put(env, iname + "_t", unit, "add")
+                return
             if how == "mul":
                 arr = n * t()
             else:
